@@ -158,6 +158,8 @@ def c07(run):
     mc_bdd(run, "C07", 4 if t else 3)
     s = record_and_validate(run, 4 if t else 3, "allwf", 0, "model", "allwf", shards=16)
     record_and_validate(run, 7 if t else 6, "random", 5000 if t else 600, "model", "rand")
+    import checks_cli
+    checks_cli.cli_model_retain(run, "model")
     run.nontrivial = s["distinct_functions"] - 2
     run.exhaustive = True
 
@@ -169,6 +171,8 @@ def c20(run):
     mc_bdd(run, "C20", 4 if t else 3)
     s = record_and_validate(run, 4 if t else 3, "allwf", 0, "retain", "allwf", shards=16)
     record_and_validate(run, 7 if t else 6, "random", 5000 if t else 600, "retain", "rand")
+    import checks_cli
+    checks_cli.cli_model_retain(run, "retain")
     run.nontrivial = s["distinct_functions"] - 2
     run.exhaustive = True
 
